@@ -91,9 +91,17 @@ int evbuffer_add_printf(struct evbuffer *buf, const char *fmt, ...)
 		} else if (c == '0' && fmt[i_ + 1] == '2' && fmt[i_ + 2] == 'X') {
 			/* CBMC 6.11 stores variadic arguments UNPROMOTED: the call site passes (unsigned char); any other
 			 * argument type fails the pointer check here (an alarm, not a silent misread) */
-			unsigned v = (unsigned)va_arg(ap, unsigned char);
+			/* (integrator) ISO C: %02X takes an unsigned int and prints ALL its hex digits, at least two.  Because of the
+			 * unpromoted storage the argument object is 1 byte for an (unsigned char) argument and 4 bytes for an
+			 * (unsigned)/(int) one: read it at its own size, so that a sign-extended argument prints as FFFFFFxx */
+			void *argp_ = *(void **)ap;
+			unsigned v; int sh_, started_ = 0;
+			if (__CPROVER_OBJECT_SIZE(argp_) >= sizeof(unsigned)) v = va_arg(ap, unsigned); else v = (unsigned)va_arg(ap, unsigned char);
 			i_ += 2;
-			vf_sb_putc_("0123456789ABCDEF"[(v >> 4) & 15u]); vf_sb_putc_("0123456789ABCDEF"[v & 15u]); n += 2;
+			for (sh_ = 28; sh_ >= 0; sh_ -= 4) {
+				unsigned dg_ = (v >> sh_) & 15u;
+				if (dg_ != 0 || started_ || sh_ <= 4) { vf_sb_putc_("0123456789ABCDEF"[dg_]); n++; started_ = 1; }
+			}
 		} else {
 			__CPROVER_assert(0, "stub: evbuffer_add_printf conversion not modelled");
 		}
